@@ -47,9 +47,23 @@ func VerifNewEnv(pipes config.PipeConfig, readCrypto, writeCrypto config.CryptoC
 	return e
 }
 
+// AddTapeEntry appends a member (its own archive: member + trailer) without touching the index and
+// returns the row that indexing it would produce.
+func (e *VerifEnv) AddTapeEntry(name string, typeflag byte, size int64) *models.Header {
+	save := e.P
+	e.P = nil
+	row := e.addEntry(name, typeflag, size, false, "", false)
+	e.P = save
+	return row
+}
+
 // AddEntry puts a consistent (tape member, index row) pair into the pre-state: the member is appended
 // to the ghost tape as its own archive and the row points at it (this is what C04 establishes).
 func (e *VerifEnv) AddEntry(name string, typeflag byte, size int64, deleted bool, linkname string) *models.Header {
+	return e.addEntry(name, typeflag, size, deleted, linkname, true)
+}
+
+func (e *VerifEnv) addEntry(name string, typeflag byte, size int64, deleted bool, linkname string, insert bool) *models.Header {
 	start := e.Tape.Len
 	// rows of non-empty regular files carry the uncompressed-size record the writer adds (reachable-state invariant)
 	pax := "{}"
@@ -86,7 +100,9 @@ func (e *VerifEnv) AddEntry(name string, typeflag byte, size int64, deleted bool
 	if deleted {
 		row.Deleted = 1
 	}
-	e.P.VerifInsert(row)
+	if insert && e.P != nil {
+		e.P.VerifInsert(row)
+	}
 	return row
 }
 
